@@ -38,7 +38,19 @@ For native functions and special operators body will be nil."
 pub fn destructure_function(mem: &mut Memory, args: &[GcRef], _env: GcRef, _recursion_depth: usize) -> Result<GcRef, GcRef> {
     validate_args!(mem, DESTRUCTURE_FUNCTION.name, args, (let f: TypeLabel::Function));
 
-    let params = f.get_param_names().iter().map(|pn| mem.symbol_for(&pn)).collect::<Vec<GcRef>>();
+    let params =
+    match f {
+        Function::NormalFunction(nf) => {
+            // the parameter symbols themselves: a generated symbol has no name that could stand for it
+            let mut params = nf.non_rest_params().collect::<Vec<GcRef>>();
+            if let Some(rest_param) = nf.rest_param() {
+                params.push(mem.symbol_for("&"));
+                params.push(rest_param);
+            }
+            params
+        },
+        Function::NativeFunction(_) => f.get_param_names().iter().map(|pn| mem.symbol_for(&pn)).collect::<Vec<GcRef>>(),
+    };
     let vec    = vec![mem.symbol_for("kind"),        mem.symbol_for(f.get_kind().to_string()),
                       mem.symbol_for("parameters"),  vec_to_list(mem, &params),
                       mem.symbol_for("body"),        f.get_body(),
